@@ -889,3 +889,53 @@ Qed.
 (* metric_le is <= on the extended reals (None = +infinity) *)
 Lemma metric_le_fin a b : metric_le (MFin a) (MFin b) = true <-> a <= b.
 Proof. simpl. apply Qle_bool_iff. Qed.
+
+(* ---------------------------------------------------------------------------------- *)
+(* SequentialTuner.tune_node                                                           *)
+(* ---------------------------------------------------------------------------------- *)
+Section TuneNode.
+  Variable obj : graph -> fitness.
+  Variable sp : space.
+  Variable cfg : config.
+  Variable P : nat -> string -> string -> value -> Prop.
+
+  Definition node_step_ok (g : graph) (i : nat) (p : proposer) : Prop :=
+    match p_steps p with
+    | [] => True
+    | s :: _ => Forall (dict_ok_node P g i) (st_trials s) /\ dict_ok_node P g i (st_best s)
+    end.
+
+  Theorem tune_node_spec p i g o :
+    node_step_ok g i p -> tune_node obj sp cfg p i g = Ok o ->
+    exists fg, out_multi o = false /\ out_graphs o = [fg] /\ out_init_metric o = gmv obj g /\
+               out_reported o = RMetric (gmv obj fg) /\ evolves P g fg /\
+               (0 <= c_dev cfg -> fg = g \/ metric_le (gmv obj fg) (gmv obj g) = true).
+  Proof.
+    unfold node_step_ok, tune_node. intros Hok.
+    destruct (nth_error g i) as [n|]; [|discriminate].
+    destruct (check_possible cfg false (Nat.ltb 1 (List.length (space_params sp (name n)))) true (gmv obj g)).
+    - destruct (p_steps p) as [|s rest]; [discriminate|]. destruct Hok as [Ft Fb].
+      destruct (seq_node_trials obj g i (st_trials s)) as [g1|e] eqn:En; [|discriminate].
+      pose proof (seq_node_trials_evolves obj P g i _ _ _ (evolves_refl P g) Ft En) as E1.
+      pose proof (step_node P g g1 i (st_best s) E1 Fb) as E2.
+      destruct (single_final_check obj cfg g (gmv obj g) (set_arg_node g1 i (st_best s))) as [[fg r]|e] eqn:Ef;
+        [|discriminate].
+      intros H. injection H as <-. simpl.
+      destruct (single_final_spec obj cfg g _ fg r Ef) as [A [B [_ D]]].
+      exists fg. split; [reflexivity|]. split; [reflexivity|]. split; [reflexivity|]. split; [exact B|]. split.
+      + destruct A as [-> | ->]; [exact E2|apply evolves_refl].
+      + intros Hd. right. auto.
+    - intros H. injection H as <-. simpl. exists g.
+      split; [reflexivity|]. split; [reflexivity|]. split; [reflexivity|]. split; [reflexivity|].
+      split; [apply evolves_refl|]. intros _. now left.
+  Qed.
+End TuneNode.
+
+Lemma node_step_ok_refl pb g i p :
+  node_step_ok_b pb g i p = true -> node_step_ok (fun i nm k v => pb i nm k v = true) g i p.
+Proof.
+  unfold node_step_ok_b, node_step_ok. destruct (p_steps p) as [|s rest]; [trivial|].
+  intros H. apply andb_true_iff in H. destruct H as [H1 H2]. split.
+  - eapply Forall_forallb; [|exact H1]. intros a. apply dict_ok_node_refl.
+  - now apply dict_ok_node_refl.
+Qed.
